@@ -48,6 +48,12 @@ CLAIMED["C18"] = dict(
     technique="symbolic execution of the real convert()/main() with the API as uninterpreted functions; equality of effect terms decided by z3 (EUF)",
     ref="4/C18")
 
+CLAIMED["C06"] = dict(
+    text="Symbolic execution of the overlap code: (A) the real 1-D kernel equals the Obara-Saika Gaussian moment for all real x1, x2, two_at and all n1, n2 <= 7 (polynomial identity by canonical form); (B) gob_cart_normalization gives N >= 0 with N^2 * integral = 1 for every power triple l <= 4 (thorough 7) and all real exponents; (C) every entry of the Cartesian-to-pure tables l <= 7 equals the exact algebraic coefficient of an independently generated real solid harmonic (rational arithmetic, 4 ulp); (D) the real compute_overlap on one centre with a symbolic exponent (unit diagonal, exact Cartesian off-diagonals, orthonormal pure shell) and on two centres with symbolic coordinates and contraction coefficients (exp uninterpreted): symmetry, transposition, translation invariance, signed permutation under conventions; rejection of unsupported input.",
+    note="Exact reals; sqrt via auxiliary variables, exp uninterpreted with monotonicity instances; screening threshold only through the branch taken; positive semidefiniteness not separately decided.",
+    technique="symbolic execution of the real numpy code on z3 terms; identities decided by polynomial canonical form (reciprocal / square-root rewrite rules from the path condition) and by z3 (NRA, EUF) otherwise",
+    ref="4/C06")
+
 NOT_YET = "check not built yet in this round (planned, see DESIGN.md section 4)"
 NA = {}
 
